@@ -37,6 +37,7 @@ inductive ModeChange
   | key (add : Bool) (k : Bytes)
   | limit (add : Bool) (n : Nat)
   | priv (add : Bool) (letter : UInt8) (nick : Bytes)   -- one of q a o h v
+  | ban (add : Bool) (mask : Bytes)               -- a list mode (+b mask): real, takes an argument, but not part of ChanMode
 deriving Repr
 
 inductive Event
@@ -78,6 +79,7 @@ def changeOk (n : Net) (c : Bytes) : ModeChange → Bool
   | .key false _ => true
   | .limit _ k => k < 100000 && k > 0
   | .priv _ l u => isPriv l && onChan n u c
+  | .ban _ m => nameOk m
 
 /-- a key removal takes no further argument-taking change after it (outside the claim) -/
 def keyRemovalLast : List ModeChange → Bool
@@ -123,7 +125,7 @@ def changeLetters : List ModeChange → Option Bool → Bytes
   | [], _ => []
   | ch :: rest, cur =>
     let (add, l) := match ch with
-      | .flag a l => (a, l) | .key a _ => (a, 107) | .limit a _ => (a, 108) | .priv a l _ => (a, l)
+      | .flag a l => (a, l) | .key a _ => (a, 107) | .limit a _ => (a, 108) | .priv a l _ => (a, l) | .ban a _ => (a, 98)
     (if cur == some add then [] else [if add then 43 else 45]) ++ [l] ++ changeLetters rest (some add)
 
 def changeArgs : List ModeChange → List Bytes
@@ -134,6 +136,7 @@ def changeArgs : List ModeChange → List Bytes
   | .limit true k :: rest => natBytes k :: changeArgs rest
   | .limit false _ :: rest => changeArgs rest
   | .priv _ _ u :: rest => u :: changeArgs rest
+  | .ban _ m :: rest => m :: changeArgs rest
 
 def joinSp : List Bytes → Bytes
   | [] => []
@@ -160,6 +163,7 @@ def applyChange (ch : NChan) : ModeChange → NChan
   | .priv a l u => match AL.lookup ch.members u with
     | some p => { ch with members := AL.insert ch.members u (applyPriv p a l) }
     | none => ch
+  | .ban _ _ => ch
 
 /-- remove user u from channel c on the server; the channel disappears with its last member -/
 def leave (n : Net) (u c : Bytes) : Net :=
@@ -197,6 +201,7 @@ def viewApplyChange (v : S) (c : Bytes) : ModeChange → S
   | .priv a l u => match AL.lookup v.mem (c, u) with
     | some p => { v with mem := AL.insert v.mem (c, u) (applyPriv p a l) }
     | none => v
+  | .ban _ _ => v
 
 def mergeModes (seen actual : ChanMode) : ChanMode :=
   { priv := seen.priv || actual.priv, secret := seen.secret || actual.secret, protectedTopic := seen.protectedTopic || actual.protectedTopic,
